@@ -591,6 +591,25 @@ func isCeilDiv(v ssa.Value, depth int) (bool, string) {
 	if depth > 3 {
 		return false, "too deep"
 	}
+	// computed by a helper of the module (numParts(total, partSize)): every value the helper returns is a
+	// ceiling division of its own operands
+	if c, ok := v.(*ssa.Call); ok {
+		if g := core.StaticCallee(c.Common()); g != nil && g.Blocks != nil && g.Pkg != nil && strings.HasPrefix(g.Pkg.Pkg.Path(), core.ModPath) && g.Signature.Results().Len() == 1 {
+			why := ""
+			for _, ret := range core.Returns(g) {
+				for _, rv := range core.ReturnValues(ret, 0) {
+					okIn, w := isCeilDiv(rv, depth+1)
+					if !okIn {
+						return false, "helper " + g.Name() + ": " + w
+					}
+					why = w
+				}
+			}
+			if why != "" {
+				return true, why + " in " + g.Name()
+			}
+		}
+	}
 	if q, ok := v.(*ssa.BinOp); ok && q.Op == token.QUO {
 		// (t + p - 1) / p
 		num, okN := core.Through(q.X).(*ssa.BinOp)
